@@ -15,8 +15,13 @@ Strings travel as decimal code points joined by `.` (`-` is the empty string), a
 * **Material** `M`: `n:<encoded source>` = the first top-level element of
   `parse false [] source` (a node parsed elsewhere); `g:<encoded source>` = the first
   argument of that element (the only way to obtain a bracket group); `s:<encoded string>` =
-  a plain Python string, i.e. `.text s (-1)`.  Lists of material are joined by `,`; the
-  empty list is `_`.
+  a plain Python string, i.e. `.text s (-1)`;
+  `i:<encoded source>@<path>` = the node at `path` *inside* a separately parsed snippet
+  (`getAtRoot (parse false [] source) path`: a node taken out of an argument, a group, an
+  `\item` of another document); `c:<path>` = a copy of the node at `path` of the document as
+  it is when the op is reached (`node.copy()`; a subtree is a value, so this is that value).
+  Lists of material are joined by `,`; the empty list is `_`.  An op whose material cannot be
+  resolved (no such path) is answered `FAIL`, like an op the model rejects.
 * **Ops**
   * `del P`            – `node.delete()` / `parent.remove(node)`
   * `rep P M,M..`      – `node.replace_with(..)` / `parent.replace(node, ..)`
@@ -80,28 +85,44 @@ def firstOf (w : String) : Option Expr :=
     | _ => none
   | none => none
 
-def parseMat (w : String) : Option Expr :=
+def innerOf (w : String) : Option Expr :=
+  match w.splitOn "@" with
+  | [src, sel] => match decStr src, parsePath sel with
+    | some s, some p => match parse false [] s with
+      | .ok es => getAtRoot es p
+      | .error _ => none
+    | _, _ => none
+  | _ => none
+
+/-- Material; `doc` is the document at the moment the op is applied (for `c:`). -/
+def parseMat (doc : List Expr) (w : String) : Option Expr :=
   if w.startsWith "n:" then firstOf (w.drop 2).toString
   else if w.startsWith "g:" then
     match firstOf (w.drop 2).toString with
     | some e => e.args.head?
     | none => none
   else if w.startsWith "s:" then (decStr (w.drop 2).toString).map (fun s => Expr.text s (-1))
+  else if w.startsWith "i:" then innerOf (w.drop 2).toString
+  else if w.startsWith "c:" then
+    match parsePath (w.drop 2).toString with
+    | some [] => none
+    | some p => getAtRoot doc p
+    | none => none
   else none
 
-def parseMats (w : String) : Option (List Expr) :=
-  if w == "_" then some [] else (w.splitOn ",").mapM parseMat
+def parseMats (doc : List Expr) (w : String) : Option (List Expr) :=
+  if w == "_" then some [] else (w.splitOn ",").mapM (parseMat doc)
 
-def parseOp (w : String) : Option EditOp :=
+def parseOp (doc : List Expr) (w : String) : Option EditOp :=
   match w.splitOn " " with
   | ["del", p] => (parsePath p).map EditOp.delete
-  | ["rep", p, m] => match parsePath p, parseMats m with
+  | ["rep", p, m] => match parsePath p, parseMats doc m with
     | some p, some m => some (.replace p m)
     | _, _ => none
-  | ["ins", c, i, m] => match parsePath c, i.toNat?, parseMats m with
+  | ["ins", c, i, m] => match parsePath c, i.toNat?, parseMats doc m with
     | some c, some i, some m => some (.insert c i m)
     | _, _, _ => none
-  | ["app", c, m] => match parsePath c, parseMats m with
+  | ["app", c, m] => match parsePath c, parseMats doc m with
     | some c, some m => some (.append c m)
     | _, _ => none
   | ["ren", p, n] => match parsePath p, decStr n with
@@ -110,7 +131,7 @@ def parseOp (w : String) : Option EditOp :=
   | ["str", p, s] => match parsePath p, decStr s with
     | some p, some s => some (.setString p s)
     | _, _ => none
-  | ["args", p, m] => match parsePath p, parseMats m with
+  | ["args", p, m] => match parsePath p, parseMats doc m with
     | some p, some m => some (.setArgs p m)
     | _, _ => none
   | _ => none
@@ -122,15 +143,18 @@ def showErr : Err → String
   | .internal => "ERR INTERNAL"
   | .fuel => "ERR FUEL"
 
-/-- Run the ops, collecting one answer per op. -/
-def runOps : List Expr → List EditOp → List String → List Expr × List String
+/-- Run the ops (each parsed against the document it meets), one answer per op. -/
+def runOps : List Expr → List String → List String → List Expr × List String
   | es, [], acc => (es, acc.reverse)
-  | es, op :: ops, acc =>
-    match applyEditE (rootWrap es) op with
-    | some _ =>
-      let es' := applyEdit es op
-      runOps es' ops (encStr (serL es') :: acc)
-    | none => runOps (applyEdit es op) ops ("FAIL" :: acc)
+  | es, w :: ws, acc =>
+    match parseOp es w with
+    | none => runOps es ws ("FAIL" :: acc)
+    | some op =>
+      match applyEditE (rootWrap es) op with
+      | some _ =>
+        let es' := applyEdit es op
+        runOps es' ws (encStr (serL es') :: acc)
+      | none => runOps (applyEdit es op) ws ("FAIL" :: acc)
 
 end TexSoup.EditDrv
 
@@ -141,12 +165,12 @@ def editHandle (words : List String) : String :=
   | src :: "|" :: rest =>
     let opsStr := " ".intercalate rest
     let opWords := if opsStr.isEmpty then [] else opsStr.splitOn ";"
-    match decStr src, opWords.mapM parseOp with
-    | some s, some ops =>
+    match decStr src with
+    | some s =>
       match parse false [] s with
       | .ok es =>
-        let (es', outs) := runOps es ops []
+        let (es', outs) := runOps es opWords []
         "EDIT " ++ ";".intercalate (outs ++ [s!"[{showExprs es'}]"])
       | .error e => showErr e
-    | _, _ => "bad-edit"
+    | none => "bad-edit"
   | _ => "bad-edit"
